@@ -515,10 +515,21 @@ func uvarint(v uint64) []byte {
 	return append(b, byte(v))
 }
 
+func realSnappy(n int) []byte {
+	return append([]byte{0x01}, snappy.Encode(nil, pattern(n, 1))...)
+}
+
+func shortHex(b []byte) string {
+	if len(b) > 4096 {
+		return ""
+	}
+	return hx(b)
+}
+
 func craftCases(thorough bool) []craftCase {
 	var cs []craftCase
 	add := func(sn bool, name string, content []byte, want int) {
-		cs = append(cs, craftCase{sn, name, content, hx(content), len(content), want})
+		cs = append(cs, craftCase{sn, name, content, shortHex(content), len(content), want})
 	}
 	for _, sn := range []bool{false, true} {
 		okPayload := []byte{}
@@ -545,6 +556,9 @@ func craftCases(thorough bool) []craftCase {
 		}
 		add(true, fmt.Sprintf("snappy-declares-%d-without-body", declared), append([]byte{0x01}, uvarint(declared)...), want)
 	}
+	// bodies that really decompress to the limit and to one byte more (compressible pattern, ~0.8 MiB on the wire)
+	add(true, "snappy-real-16777215", realSnappy(maxU24), 1)
+	add(true, "snappy-real-16777216", realSnappy(maxU24+1), 0)
 	add(true, "snappy-empty", []byte{0x01}, 0)
 	add(true, "snappy-truncated-body", append([]byte{0x01}, snappy.Encode(nil, pattern(200, 0))[:50]...), 0)
 	add(true, "snappy-copy-before-start", []byte{0x01, 0x04, 0x0d, 0x01}, -1) // copy element with nothing produced yet
@@ -566,7 +580,7 @@ func evalCraft(c craftCase) (fs []finding, class string, msgSize int) {
 	wire := newRefFramer(is.AES, is.MAC, is.EgressMAC).frame(c.Content, c.Size)
 	id := fmt.Sprintf("snappy=%v/%s", c.Snappy, c.Name)
 	detail := func() map[string]interface{} {
-		return map[string]interface{}{"kind": "craft", "case": c, "content_hex": hx(c.Content), "wire_hex": hx(wire)}
+		return map[string]interface{}{"kind": "craft", "case": c, "content_hex": shortHex(c.Content), "wire_hex": shortHex(wire)}
 	}
 	defer func() {
 		if x := recover(); x != nil {
@@ -631,7 +645,7 @@ func rlpxAllocPass(run *ev.Run) {
 				}
 			}
 			if again == 3 {
-				f := rlpxFinding("rlpx-frame", "allocation-bounded", fmt.Sprintf("snappy=%v/%s", c.Snappy, c.Name), map[string]interface{}{"kind": "craft-alloc", "case": c, "content_hex": hx(c.Content), "bytes": b})
+				f := rlpxFinding("rlpx-frame", "allocation-bounded", fmt.Sprintf("snappy=%v/%s", c.Snappy, c.Name), map[string]interface{}{"kind": "craft-alloc", "case": c, "content_hex": shortHex(c.Content), "bytes": b})
 				run.Violate(ev.Violation{Scenario: f.Scenario, Oracle: f.Oracle, CaseID: f.CaseID, Detail: f.Detail})
 			}
 		}
@@ -829,6 +843,12 @@ func replayRLPx(t interface{}, run *ev.Run, d *ev.ReplayDoc) {
 	case "craft", "craft-alloc":
 		m := d.Detail["case"].(map[string]interface{})
 		c := craftCase{Snappy: dBool(m, "snappy"), Name: dStr(m, "name"), Content: unhex(dStr(d.Detail, "content_hex")), Size: dInt(m, "size"), Want: dInt(m, "want")}
+		switch c.Name { // contents too long for the replay file are regenerated
+		case "snappy-real-16777215":
+			c.Content = realSnappy(maxU24)
+		case "snappy-real-16777216":
+			c.Content = realSnappy(maxU24 + 1)
+		}
 		if dStr(d.Detail, "kind") == "craft-alloc" {
 			t := sessionTemplate()
 			is := t.initiator()
